@@ -799,6 +799,47 @@ func c13pendingClose(rep *vh.Report, seed uint64, idx int) {
 	}, healthy, 500*time.Millisecond)
 	atomic.StoreInt32(&gated, 0)
 	close(gate)
+	// later, when the application HAS taken the close event and still names the channel that is gone as the one to leave out
+	// (a router forwarding what it had received from that peer): every remaining channel gets the item
+	waitFor(func() bool {
+		for _, ci := range n.cons.allChannels() {
+			if sn := n.cons.snapshot(ci); sn.Tr == n.trs[v] && sn.State == 2 {
+				return true
+			}
+		}
+		return false
+	}, n.cons.nEvents, 500*time.Millisecond)
+	var wantLater []uint64
+	for i := 0; i < 8; i++ {
+		uid := uint64(fam+1)<<56 | uint64(i+1)
+		wantLater = append(wantLater, uid)
+		if i%2 == 0 {
+			_ = n.node.WriteMessageExcept(n.chans[v], &MessageVfUid{Uid: uid, Kind: 1})
+		} else {
+			_ = n.node.WriteFrameExcept(n.chans[v], &frame.V2Frame{SequenceNumber: byte(i), SystemID: 3, ComponentID: 4, Message: &MessageVfUid{Uid: uid, Kind: 1}})
+		}
+		time.Sleep(200 * time.Microsecond)
+	}
+	waitFor(func() bool {
+		for ti, tr := range n.trs {
+			if ti == v {
+				continue
+			}
+			if acc, _ := wireUIDs(tr, fam+1); len(acc) < len(wantLater) {
+				return false
+			}
+		}
+		return true
+	}, healthy, 400*time.Millisecond)
+	for ti, tr := range n.trs {
+		if ti == v {
+			continue
+		}
+		if got, _ := wireUIDs(tr, fam+1); !eqU64(got, wantLater) {
+			rep.Violation("what=starved:except-closed ep=custom", fmt.Sprintf("channel %d of %d had failed and its close event had been taken: of %d items then written to all but that channel, healthy channel %d received %d", v, k, len(wantLater), ti, len(got)), nil)
+			break
+		}
+	}
 	rep.Eval(1)
 	rep.Count("pending_close_runs", 1)
 	rep.Distinct("pending-close", idx, k, v)
